@@ -211,6 +211,8 @@ func MustPass(fn *ssa.Function, isM func(ssa.Instruction) bool, isRet func(*ssa.
 }
 
 func checkC19(c *Ctx, r *Report) {
+	defer collectorOwnsConfigRule(c, r)
+	defer loaderStateRule(c, r)
 	r.Assumption("user-supplied FileLoader functions honour the options they are given")
 	r.Assumption("equality of the accumulated config with a sequence of merges is not decided (value-level)")
 
@@ -615,4 +617,130 @@ func wholeCopiesInto(ms *ssa.MakeSlice) []ssa.Value {
 		}
 	}
 	return out
+}
+
+// loaderStateRule (R19i): "repeated flags accumulate like sequential merges": every occurrence of the flag is loaded
+// and merged, the tenth like the first. The loaders handed to newFlagValue are therefore functions of their argument:
+// a loader that keeps state between calls (a set of files seen, a memo of the last value) answers a later occurrence
+// differently from the first one — `-c base -c site -c base` no longer ends with base's values on top.
+func loaderStateRule(c *Ctx, r *Report) {
+	r.Rule("R19i", "the loader closures handed to newFlagValue write no captured variable and no captured map: every occurrence of a flag is loaded like the first", 2)
+	nfv := c.Func("flag", "newFlagValue")
+	n := 0
+	for _, fn := range c.SrcFuncs() {
+		if fn.Pkg != c.SSA["flag"] {
+			continue
+		}
+		for _, ci := range CallsTo(fn, nfv, false) {
+			for _, a := range ci.Common().Args {
+				if _, isSig := a.Type().Underlying().(*types.Signature); !isSig {
+					continue
+				}
+				var lit *ssa.Function
+				switch x := a.(type) {
+				case *ssa.MakeClosure:
+					lit, _ = x.Fn.(*ssa.Function)
+				case *ssa.Function:
+					lit = x
+				}
+				if lit == nil {
+					r.add("R19i", c.FnName(fn), "loader handed to newFlagValue", c.Pos(ci.Pos()), Undecided, true, "the loader is not a function literal or a named function: its effects cannot be enumerated")
+					continue
+				}
+				n++
+				bad := ""
+				for _, f := range WithAnon(lit) {
+					Instrs(f, false, func(in ssa.Instruction) {
+						switch x := in.(type) {
+						case *ssa.Store:
+							addr := x.Addr
+							for i := 0; i < 8; i++ {
+								if fa, ok := addr.(*ssa.FieldAddr); ok {
+									addr = fa.X
+								} else if ia, ok := addr.(*ssa.IndexAddr); ok {
+									addr = ia.X
+								} else {
+									break
+								}
+							}
+							if fv, ok := addr.(*ssa.FreeVar); ok {
+								bad = "assigns the captured variable " + fv.Name() + " at " + c.Pos(x.Pos())
+							}
+							if g, ok := addr.(*ssa.Global); ok {
+								bad = "assigns the package variable " + g.Name() + " at " + c.Pos(x.Pos())
+							}
+						case *ssa.MapUpdate:
+							cands := append([]ssa.Value{x.Map}, Sources(x.Map)...)
+							for _, src := range cands {
+								if l, ok := src.(*ssa.UnOp); ok && l.Op == token.MUL {
+									src = l.X
+								}
+								if al, ok := src.(*ssa.Alloc); ok && al.Parent() != f {
+									bad = "writes the captured map " + al.Comment + " at " + c.Pos(x.Pos())
+								}
+								switch y := src.(type) {
+								case *ssa.FreeVar:
+									bad = "writes the captured map " + y.Name() + " at " + c.Pos(x.Pos())
+								case *ssa.Global:
+									bad = "writes the package-level map " + y.Name() + " at " + c.Pos(x.Pos())
+								}
+							}
+						}
+					})
+				}
+				r.Check(bad == "", "R19i", c.FnName(fn), "loader handed to newFlagValue", c.Pos(ci.Pos()), "the loader writes nothing it captured",
+					"the flag loader keeps state between its calls ("+bad+"): a later occurrence of the flag is not loaded like the first, so repeated flags no longer accumulate like sequential merges (a file given again after another one does not override it)")
+			}
+		}
+	}
+	if n == 0 {
+		r.Bad("R19i", "flag", "loader handed to newFlagValue", "-", "no loader closure is handed to newFlagValue any more")
+	}
+}
+
+// collectorOwnsConfigRule (R19j): the configuration of a Collector is the one its constructor was given, or a new one;
+// everything that is added later is merged into it (copied, by C10). A Collector that adopts a configuration handed
+// to Add shares it with whoever made it: the next merge writes into the loader's own object, and a loader that hands
+// the same object out again sees its own defaults polluted.
+func collectorOwnsConfigRule(c *Ctx, r *Report) {
+	r.Rule("R19j", "Collector.config is stored only by NewCollector, or elsewhere with a configuration made by ucfg.New on the spot: a configuration handed to a method is merged, never adopted", 1)
+	colT := c.Named("cfgutil", "Collector")
+	nc := c.Func("cfgutil", "NewCollector")
+	n := 0
+	for _, fn := range c.SrcFuncs() {
+		if fn.Pkg != c.SSA["cfgutil"] {
+			continue
+		}
+		Instrs(fn, false, func(in ssa.Instruction) {
+			st, ok := in.(*ssa.Store)
+			if !ok {
+				return
+			}
+			nt, fld, ok := FieldOf(st.Addr)
+			if !ok || nt != colT || fld != "config" {
+				return
+			}
+			n++
+			if fn == nc {
+				r.OK("R19j", c.FnName(fn), "store into Collector.config", c.Pos(st.Pos()), "the constructor")
+				return
+			}
+			fresh := true
+			for _, src := range Sources(st.Val) {
+				call, isCall := src.(*ssa.Call)
+				if !isCall {
+					fresh = false
+					continue
+				}
+				if g := call.Call.StaticCallee(); g == nil || g.String() != "github.com/elastic/go-ucfg.New" {
+					fresh = false
+				}
+			}
+			r.Check(fresh, "R19j", c.FnName(fn), "store into Collector.config", c.Pos(st.Pos()), "a configuration made by ucfg.New on the spot",
+				"the collector takes over a configuration it was handed ("+describeVals(Sources(st.Val))+") instead of merging it into its own: later merges write into the caller's object, and the options of the collector never apply to that first value")
+		})
+	}
+	if n == 0 {
+		r.Bad("R19j", "cfgutil", "store into Collector.config", "-", "no store into Collector.config found: the constructor no longer sets it")
+	}
 }
